@@ -82,4 +82,35 @@ PROPS = {
         "trusted_base": COMMON_TB + ["handler skeletons and rotation in the reference storage are hand-modelled; tied by this stream"],
         "assumptions": [],
     },
+    "C20": {
+        "proof_module": "OidcModel.Proofs.C20",
+        "theorems": ["C20.hidden_exact", "C20.undisciplined_exact", "C20.rest_disciplined", "C20.lazy_fields_preinitialised", "C20.provider_read_only",
+                     "C20.c20_globals_unchanged_partial", "C20.c20_instances_isolated_partial", "C20.c20_race_free_partial",
+                     "C20.c20_model_satisfies_monitor", "C20.c20a_witness", "C20.c20b_witness", "C20.c20c_witness", "C20.c20de_witness",
+                     "C20.c20_full_discipline_fails",
+                     "Footprint.run_shared_frame", "Footprint.own_cells_of_step", "Footprint.no_race", "Footprint.race_free_of_disciplined"],
+        "cases": {"quick": 260, "thorough": 10000},
+        "timeout": {"quick": 600, "thorough": 3000},
+        "rule": "part 1 (in process, real library): histories of 3-7 steps; a step constructs a provider (4 entry points x 17 options), a relying party (OIDC / OAuth x 11 options), "
+                "a resource server, a token exchanger or a remote key set with a random option subset (objects such as the *http.Client, the *oauth2.Config, option and scope slices "
+                "are shared between the constructions of one history), or calls one of 45 API operations on an existing instance (RP calls incl. CodeExchange / Userinfo / RefreshTokens / "
+                "EndSession / RevokeToken, RS Introspect, token exchange, key-set verification with 6 key-list shapes x 5 token shapes, the provider's HTTP handlers, library functions taking "
+                "caller-owned objects); every step is bracketed by deep reflect snapshots (field granularity) of 35 package-level variables, of every caller-supplied object, of every OTHER "
+                "instance's observable configuration (getters, discovery document, CORS answer, HTTP client identity) and by behaviour probes (does client.Discover through the client still follow a "
+                "redirect; how many JWKS downloads a fixed reference token needs); fixed scenarios of the statement run first. part 2: 17 concurrent mixes (6-8 goroutines) executed by a binary built with "
+                "go build -race from the same tree; each data-race report becomes one case naming the library functions of both accesses. The Lean driver recomputes the may-write set / the functions that "
+                "may race from the regenerated write-site facts; agree = everything observed is covered by the prediction; the monitor judges the observation alone. "
+                "non-trivial = the model predicts a shared write or a race was reported; distinct = class x input",
+        "trivial_class": r"(construct|call|mix|inventory)[^+]*",
+        "trusted_base": ["factgen's W-fact extraction (go/ast, no type information): roots, aliases through locals, constructor / option / getter shapes, lock regions, name- and interface-based call graph; "
+                         "writes performed inside dependencies (net/http, oauth2, go-jose, chi, schema) are outside the model",
+                         "footprint semantics (Model/Footprint.lean): option initialisers override constructor initialisers; results of calls other than zero-argument getters are fresh; "
+                         "the object under construction is not shared before the constructor returns",
+                         "race freedom is derived from the extracted discipline (read-only after construction, eager initialisation, mutex regions) in an interleaving machine; the Go memory model is not modelled (partial)",
+                         "the Go race detector and reflect-based snapshots are supporting evidence only; unexported package-level variables (op.defaultCORSOptions, tracers, templates) are covered by the static facts, "
+                         "not by the snapshots",
+                         "audited sites (Model/C20Known.lean): inflight.done / updateKeys' read of inflight (single-flight ownership, property C13), jsonWebKeySet.UnmarshalJSON (call-local decode target)"],
+        "assumptions": ["instances are created by the library's constructors and used only after the constructor returned",
+                        "objects of library instance types exist only where a constructor of that type is reachable from the instance's constructor or the running call"],
+    },
 }
